@@ -58,8 +58,19 @@ func vSegmentsWellFormed(db *DB, tag string) {
 // included); epoch 2 = recovering Open, itself cut by a crash at a symbolic
 // file-system call or not; epoch 3 = Open, L2 acknowledged operations, process
 // death; final recovery. Every acknowledged write of every epoch must be there.
-func hC04(n, prefix, L2, vlen int) {
-	cfs := &crashFS{inner: fs.Mem}
+func hC04(n, prefix, L2, vlen int) { hC04on(fs.Mem, n, prefix, L2, vlen) }
+
+// hC04on: inner is fs.Mem (from source) or fs.OS (over the kernel model: Stat
+// returns a snapshot there, not the live file)
+func hC04on(inner fs.FileSystem, n, prefix, L2, vlen int) {
+	drop := func() {
+		if inner == fs.Mem {
+			fs.VerifDropHandles()
+		} else {
+			vKernelDropHandles()
+		}
+	}
+	cfs := &crashFS{inner: inner}
 	rec := 10 + 8 + vlen
 	dir := "c04"
 	db, err := Open(dir, smallOpts(cfs, 2, rec))
@@ -89,10 +100,10 @@ func hC04(n, prefix, L2, vlen int) {
 	if cfs.tears > 0 {
 		vCover("C04.epoch1-torn-write")
 	}
-	fs.VerifDropHandles()
+	drop()
 
 	// epoch 2: recovery, possibly cut by a second crash
-	cfs2 := &crashFS{inner: fs.Mem, armed: true}
+	cfs2 := &crashFS{inner: inner, armed: true}
 	var db2 *DB
 	crashed2 := vRunCrashable(func() {
 		var err error
@@ -101,8 +112,8 @@ func hC04(n, prefix, L2, vlen int) {
 	})
 	if crashed2 {
 		vCover("C04.crash-during-recovery")
-		fs.VerifDropHandles()
-		db2, err = Open(dir, smallOpts(fs.Mem, 2, rec))
+		drop()
+		db2, err = Open(dir, smallOpts(inner, 2, rec))
 		vAssert(err == nil, "C04.second-recovering-open-succeeds")
 		if err != nil {
 			return
@@ -131,8 +142,8 @@ func hC04(n, prefix, L2, vlen int) {
 		refApply(cur, op, k, v)
 		dbApply(&db2, dir, nil, cur, op, k, v, "C04.e3")
 	}
-	fs.VerifDropHandles()
-	db3, err := Open(dir, smallOpts(fs.Mem, 2, rec))
+	drop()
+	db3, err := Open(dir, smallOpts(inner, 2, rec))
 	vAssert(err == nil, "C04.final-recovering-open-succeeds")
 	if err != nil {
 		return
@@ -141,8 +152,8 @@ func hC04(n, prefix, L2, vlen int) {
 	checkSelfConsistent(db3, cur, "C04.e3")
 	vSegmentSizesMatch(db3, "C04.e3")
 	// recovering twice from the same image gives the same contents
-	fs.VerifDropHandles()
-	db4, err := Open(dir, smallOpts(fs.Mem, 2, rec))
+	drop()
+	db4, err := Open(dir, smallOpts(inner, 2, rec))
 	vAssert(err == nil, "C04.recover-again-succeeds")
 	if err != nil {
 		return
@@ -154,6 +165,7 @@ func hC04(n, prefix, L2, vlen int) {
 
 func H_C04_q()    { hC04(2, 2, 1, 2) }
 func H_C04_tear() { hC04(2, 1, 1, 300) }
+func H_C04_tear_os() { hC04on(fs.OS, 2, 1, 1, 300) }
 
 // the second record starts 4 bytes before the 1024 boundary: a tear leaves a partial size header
 func H_C04_tearhdr() { hC04(2, 1, 1, 490) }
